@@ -401,7 +401,7 @@ def c08_reject(rng, tier):
 # ---------------------------------------------------------------------------------------
 # C09  Prandtl-Glauert
 # ---------------------------------------------------------------------------------------
-def _states_forces(surfaces, flow, compressible, meshes=None):
+def _states_forces(surfaces, flow, compressible, meshes=None, omega=None, cg=None):
     import openmdao.api as om
     from openaerostruct.aerodynamics.states import VLMStates
     from openaerostruct.aerodynamics.compressible_states import CompressibleVLMStates
@@ -411,6 +411,10 @@ def _states_forces(surfaces, flow, compressible, meshes=None):
     units = dict(alpha="deg", beta="deg", v="m/s", rho="kg/m**3", Mach_number=None)
     for k in ("alpha", "beta", "v", "rho", "Mach_number"):
         ivc.add_output(k, val=flow[k], units=units[k])
+    rotational = omega is not None
+    if rotational:
+        ivc.add_output("omega", val=np.array(omega, dtype=float), units="rad/s")
+        ivc.add_output("cg", val=np.array(cg if cg is not None else np.zeros(3), dtype=float), units="m")
     prob.model.add_subsystem("ivc", ivc, promotes=["*"])
     for i, s in enumerate(surfaces):
         m = s["mesh"] if meshes is None else meshes[i]
@@ -418,7 +422,7 @@ def _states_forces(surfaces, flow, compressible, meshes=None):
         prob.model.add_subsystem(s["name"] + "_geom", VLMGeometry(surface=s))
         prob.model.connect(s["name"] + "_def_mesh", s["name"] + "_geom.def_mesh")
         prob.model.connect(s["name"] + "_geom.normals", s["name"] + "_normals")
-    st = CompressibleVLMStates(surfaces=surfaces) if compressible else VLMStates(surfaces=surfaces)
+    st = CompressibleVLMStates(surfaces=surfaces, rotational=rotational) if compressible else VLMStates(surfaces=surfaces, rotational=rotational)
     prob.model.add_subsystem("st", st, promotes=["*"])
     with quiet():
         prob.setup(); prob.run_model()
@@ -464,6 +468,15 @@ def c09_mach0(rng, tier):
     case = dict(shapes=[list(s["mesh"].shape) for s in surfaces], alpha=flow["alpha"])
     if relerr(comp[0], inc[0]) > 1e-8:
         out.append(_fail("compressible and incompressible solvers differ at Mach 0", comp[0], inc[0], **case))
+    # ... also with rigid-body rotation rates (the `rotational` option)
+    omega = rng.normal(size=3) * 0.3; cg = rng.normal(size=3)
+    if surfaces[0]["symmetry"]:
+        omega[[0, 2]] = 0.0; cg[1] = 0.0                    # a half model can only represent pitch rate
+    compr = _states_forces(surfaces, flow, True, omega=omega, cg=cg)
+    incr = _states_forces(surfaces, flow, False, omega=omega, cg=cg)
+    if relerr(compr[0], incr[0]) > 1e-8:
+        out.append(_fail("compressible and incompressible solvers differ at Mach 0 with rotation rates", compr[0], incr[0],
+                         omega=[float(x) for x in omega], **case))
     # continuity in Mach: a 1e-6 step in M changes forces by O(1e-6)
     M = float(rng.choice([rng.uniform(0.05, 0.9), rng.uniform(0.9, 0.949)]))
     f1 = dict(flow); f1["Mach_number"] = M
